@@ -275,7 +275,17 @@ int FIXWriter::execute(f8_thread_cancellation_token& cancellation_token)
 		try
 		{
 			Message *inmsg(0);
+#if (FIX8_MPMC_SYSTEM == FIX8_MPMC_FF)
+			// the FastFlow queue cannot carry the null quit marker (it asserts on null, and without assertions a null wedges the
+			// slot): poll, as its blocking pop does, so that a stop request is seen
+			if (!_msg_queue.try_pop(inmsg))
+			{
+				sched_yield();
+				continue;
+			}
+#else
 			_msg_queue.pop (inmsg); // will block
+#endif
 			if (!inmsg)
 				break;
 			unique_ptr<Message> msg(inmsg);
